@@ -193,6 +193,9 @@ def redirect_case(length, limit, ending, rstatus):
             return build_response(req, 404, None, None, "absent", None)
         if ending == "redirect-no-location":
             return build_response(req, rstatus, None, None, "absent", None)
+        if ending in ("redirect-http-location", "redirect-relative-location", "redirect-garbage-location"):
+            loc = {"redirect-http-location": "https://host9.example/x", "redirect-relative-location": "/elsewhere", "redirect-garbage-location": "::not a url::"}[ending]
+            return build_response(req, rstatus, None, None, "absent", None, location=loc)
         if ending == "valid-prevkey":
             return build_response(req, 101, "websocket", "Upgrade", "prevkey", None, prevkey=first_key[0] or "")
         raise KeyError(ending)
@@ -223,6 +226,8 @@ def redirect_case(length, limit, ending, rstatus):
     if attempts > eff + 1:
         return (dict(sig, kind="too-many-attempts"), "%s: %d connection attempts, limit allows %d" % (label, attempts, eff + 1))
     # each hop must go to the host named by the previous Location
+    if out[0] == "exc" and isinstance(out[1], ValueError):
+        return (dict(sig, kind="valueerror-for-server-location"), "%s: connect() raised ValueError (%s) for a Location sent by the server" % (label, out[1]))
     resolves = [e[1] for e in net.log if e[0] == "resolve"]
     want = ["example.com"] + ["host%d.example" % (i + 1) for i in range(min(length, eff))]
     if resolves != want[:len(resolves)] or (expect and resolves != want):
@@ -273,7 +278,7 @@ def run_task(desc):
     elif desc["part"] == "redirects":
         for length in range(0, 6):
             for limit in (0, 1, 2, None, 5):
-                for ending in ("valid", "404", "redirect-no-location", "valid-prevkey"):
+                for ending in ("valid", "404", "redirect-no-location", "valid-prevkey", "redirect-http-location", "redirect-relative-location", "redirect-garbage-location"):
                     for rs in REDIRECTS:
                         n += 1
                         rec(guarded(redirect_case, length, limit, ending, rs), {"case": "redirect", "args": [length, limit, ending, rs]})
